@@ -1,5 +1,5 @@
 (* Generic correspondence driver: reads one case per line on stdin, hands the raw line
-   to the extracted Gallina function Corr.All.check_line, prints "<index> <result>".
+   to the extracted Gallina function Corr.<Cxx>.check_line (= Base.Val.check_line_with run), prints "<index> <result>".
    The only glue is char <-> Coq byte conversion (through the extracted all_bytes). *)
 let byte_tbl = Array.of_list Model.all_bytes
 let () = assert (Array.length byte_tbl = 256)
@@ -17,13 +17,12 @@ let string_of_bytes l =
   Buffer.contents b
 
 let () =
-  let name = bytes_of_string Sys.argv.(1) in
   let i = ref 0 in
   (try
      while true do
        let line = input_line stdin in
        if String.length line > 0 then begin
-         let res = Model.check_line name (bytes_of_string line) in
+         let res = Model.check_line (bytes_of_string line) in
          print_string (string_of_int !i); print_char ' ';
          print_endline (string_of_bytes res);
          incr i
